@@ -88,8 +88,17 @@ def finish(pid, tier, seed, cfg, kf, outs, units_by_id, wall):
     real_obs = [ob for ob in obligations if not ob.get('is_canary') and ob['verdict'] not in ('not-applicable', 'carved-out')]
     n_ob = len(real_obs)
     n_proved = sum(1 for ob in real_obs if ob['verdict'] == 'proved')
-    undecided = [ob for ob in real_obs if ob['verdict'] == 'undecided']
     refuted = [ob for ob in real_obs if ob['verdict'] == 'refuted']
+    # a ghost / frame clause whose verification condition has a counter-model that no native run can show: a violation
+    # only for an obligation the committed baseline lists as discharged on the reference tree (it passed, now it fails);
+    # otherwise undecided
+    base = baseline_proved(pid)
+    unwitnessed = [ob for ob in real_obs if ob['verdict'] == 'unwitnessed' and ob['id'] in base]
+    for ob in real_obs:
+        if ob['verdict'] == 'unwitnessed' and ob['id'] not in base:
+            ob['verdict'] = 'undecided'
+    undecided = [ob for ob in real_obs if ob['verdict'] == 'undecided']
+    regressed = [ob for ob in undecided if ob['id'] in base]
 
     violations = []
     # ---- refuted proof obligations (each already replayed natively by the engine)
@@ -99,6 +108,14 @@ def finish(pid, tier, seed, cfg, kf, outs, units_by_id, wall):
                                                   witness=ob['witness'], solver_output=ob['witness'].get('model'),
                                                   how='counterexample of the verification condition, replayed on the real function'))
         violations.append((ob['id'], path, ''))
+
+    for ob in unwitnessed:
+        path = _write_replay(pid, ob['id'], dict(kind='unit-unwitnessed', property=pid, obligation=ob['id'], unit=ob['unit'],
+                                                  instance=ob['instance'], case=ob['case'], target=ob['target'],
+                                                  verifier_output=ob['witness'], reasons=ob['reasons'][:3],
+                                                  how='the obligation is discharged on the reference tree (baseline/discharged.json) and fails now: its verification '
+                                                      'condition has a counter-model, but the clause speaks about reads / writes / call order that a native run cannot observe'))
+        violations.append((ob['id'], path, 'no-failing-input-found'))
 
     # ---- bounded layer on units
     b_evals = b_distinct = 0
@@ -204,7 +221,8 @@ def finish(pid, tier, seed, cfg, kf, outs, units_by_id, wall):
             inlined_from_real_source=[f for f in interpreted if f not in targets],
             by_backend=backends, solver_time_s=solver_time,
             undecided=[dict(obligation=ob['id'], reason=(ob['reasons'] or ['?'])[0][:300]) for ob in undecided][:60],
-            n_undecided=len(undecided),
+            n_undecided=len(undecided), undecided_regressions_vs_baseline=[ob['id'] for ob in regressed][:40],
+            unwitnessed_violations=[ob['id'] for ob in unwitnessed][:40],
             refuted=[dict(obligation=ob['id'], witness=ob['witness']['inputs'] if ob.get('witness') else None) for ob in refuted][:40],
             bounded=dict(label='bounded - never counted as proved', unit_contract_evaluations=b_evals, drivers=d_summ),
             known_findings=dict(listed=[e['id'] for e in kf.get('findings', []) if e['property'] == pid], stale=stale,
@@ -224,6 +242,11 @@ def finish(pid, tier, seed, cfg, kf, outs, units_by_id, wall):
         print(l)
     print(f'SUMMARY property={pid} tier={tier} obligations={n_ob} discharged={n_proved} undecided={len(undecided)} '
           f'refuted={len(refuted)} bounded_evaluations={evaluations} known_findings={len(kf_lines)} wall={wall:.1f}s')
+    if os.environ.get('PYVC_DUMP_PROVED'):
+        with open(os.environ['PYVC_DUMP_PROVED'], 'w') as f:
+            json.dump(sorted(ob['id'] for ob in real_obs if ob['verdict'] == 'proved'), f)
+    for ob in regressed[:10]:
+        print(f'UNDECIDED-REGRESSION property={pid} obligation={ob["id"]} (discharged on the reference tree, undecided now: {(ob["reasons"] or ["?"])[0][:140]})')
     for u in undecided[:8]:
         print(f'  undecided {u["id"]}: {(u["reasons"] or ["?"])[0][:160]}', file=sys.stderr)
     if checker_errors:
@@ -239,6 +262,15 @@ def finish(pid, tier, seed, cfg, kf, outs, units_by_id, wall):
             print(f'VIOLATION property={pid} replay={path}{(" " + suffix) if suffix else ""}')
         return 1
     return 0
+
+
+def baseline_proved(pid):
+    """ids of the obligations discharged on the reference tree (committed; written by tools/gen_baseline.py, never by a check)"""
+    try:
+        with open(os.path.join(ROOT, 'baseline', 'discharged.json')) as f:
+            return set(json.load(f).get(pid, []))
+    except Exception:
+        return set()
 
 
 def _z3v():
